@@ -622,7 +622,7 @@ func runLint(which string) {
 		if os.Getenv("GCV_DEBUG") != "" {
 			debugArgRoles(p)
 		}
-	case "SCAN", "ABS", "ZEROUSE", "ARRIDX", "WIDTH", "SUBALIAS", "ASMBOUNDS", "DEAD", "RANGEOFF", "SHAREDFIELD", "STALECAP", "CHUNKREM", "COINDEX", "CONSTCOND", "NARROWREM", "ELEMALIAS":
+	case "SCAN", "ABS", "ZEROUSE", "ARRIDX", "WIDTH", "SUBALIAS", "ASMBOUNDS", "DEAD", "RANGEOFF", "SHAREDFIELD", "STALECAP", "CHUNKREM", "COINDEX", "CONSTCOND", "NARROWREM", "ELEMALIAS", "IGNOREDOBS", "SWALLOW", "ROTATE":
 		registerScanProgram(p)
 		re := regexp.MustCompile(os.Getenv("GCV_FUNCS"))
 		for _, fn := range fns {
@@ -639,6 +639,12 @@ func runLint(which string) {
 				n, h = narrowBeforeReduce(p, fn)
 			} else if which == "ELEMALIAS" {
 				n, h = elementAliasHazard(p, fn)
+			} else if which == "IGNOREDOBS" {
+				n, h = ignoredObservations(p, fn)
+			} else if which == "SWALLOW" {
+				n, h = swallowedErrors(p, fn)
+			} else if which == "ROTATE" {
+				n, h = rotatedWithoutTemp(p, fn)
 			} else if which == "COINDEX" {
 				n, h = coIndexedLengths(p, fn)
 			} else if which == "RANGEOFF" {
